@@ -62,6 +62,7 @@ RefTx(pre, e, post) ==
                LET ms == SelectSeq(m.res.events, LAMBDA x : x.action = "swap")
                    os == SelectSeq(e.res.events, LAMBDA x : x.action = "swap")
                IN  /\ Len(ms) = Len(os)
+                   /\ \A i \in DOMAIN os : HasFields(os[i], SwapFields)
                    /\ \A i \in DOMAIN ms :
                           /\ ms[i].contract = os[i].contract /\ ms[i].receiver = os[i].receiver
                           /\ ms[i].offer_asset = os[i].offer_asset /\ ms[i].ask_asset = os[i].ask_asset
@@ -113,6 +114,7 @@ TxChecks(pre, ev, post) ==
           /\ Chk(C03_Share(pre, post, p), "C03", "share-value", Cls(pre, ev, p))
           /\ Chk(C06_Swap(pre, ev, p), "C06", "swap-attrs", "")
     /\ Chk(C02_Settle(pre, ev, post), "C02", "settle", "")
+    /\ Chk(C02_Declared(pre, ev, post), "C02", "declared", "")
     /\ Chk(C04_Withdraw(pre, ev, post), "C04", "withdraw", "")
     /\ Chk(C05_Provide(pre, ev, post), "C05", "provide", "")
     /\ Chk(C07_ThirdParty(pre, ev, post), "C07", "third-party", "")
@@ -133,6 +135,7 @@ TxChecks(pre, ev, post) ==
     /\ Chk(C16_Create(pre, ev, post), "C16", "create", "")
     /\ Chk(C16_Requested(pre, ev, post), "C16", "requested", "")
     /\ Chk(C06_ConfiguredRate(pre, ev, post), "C06", "configured-rate", "")
+    /\ Chk(C05_ConfiguredGate(pre, ev, post), "C05", "configured-gate", "")
     /\ Chk(C16_RegistryInv(post), "C16", "registry-inv", "")
     /\ Chk(C17_Update(pre, ev, post), "C17", "update", "")
     /\ Chk(C17_DecimalsInv(post), "C17", "decimals-inv", "")
